@@ -353,25 +353,36 @@ func extStringsReplaceAll(fr *frame, args []value) value {
 }
 
 func extStringsTrimRightFunc(fr *frame, args []value) value {
-	s, ok := args[0].(string)
-	if !ok {
-		// raw string content with symbolic characters: trimming is only
-		// decidable when the tail is a literal non-space byte
-		ps := partsOf(args[0])
-		if n := len(ps); n > 0 && ps[n-1].Kind == PLit {
-			last := ps[n-1].Lit
-			trimmed := strings.TrimRightFunc(last, unicode.IsSpace)
-			if trimmed != "" {
-				out := append(append([]Part{}, ps[:n-1]...), Part{Kind: PLit, Lit: trimmed})
-				return mkRope(out)
-			}
-		}
-		panic(Inconclusive{"TrimRightFunc on symbolic tail"})
-	}
 	if fn, ok := args[1].(interface{ String() string }); !ok || fn.String() != "unicode.IsSpace" {
 		panic(Inconclusive{"TrimRightFunc with a function other than unicode.IsSpace"})
 	}
-	return strings.TrimRightFunc(s, unicode.IsSpace)
+	if s, ok := args[0].(string); ok {
+		return strings.TrimRightFunc(s, unicode.IsSpace)
+	}
+	// symbolic characters at the tail: decide, from the end, whether each is a space
+	ps := append([]Part{}, partsOf(args[0])...)
+	for len(ps) > 0 {
+		last := ps[len(ps)-1]
+		switch last.Kind {
+		case PLit:
+			t := strings.TrimRightFunc(last.Lit, unicode.IsSpace)
+			if t != "" {
+				ps[len(ps)-1] = Part{Kind: PLit, Lit: t}
+				return mkRope(ps)
+			}
+			ps = ps[:len(ps)-1]
+		case PCell:
+			sp := extIsSpace(fr, []value{SymInt{T: last.Lit, Kind: types.Int32}})
+			if fr.i.ctx.DecideValue(sp) {
+				ps = ps[:len(ps)-1]
+			} else {
+				return mkRope(ps)
+			}
+		default:
+			panic(Inconclusive{"TrimRightFunc on a symbolic tail of unknown content"})
+		}
+	}
+	return ""
 }
 
 // charSetRe renders a set of bytes as an SMT regex union.
